@@ -127,6 +127,25 @@ def main():
         except Exception as e:  # noqa
             rec["error"] = "%s: %s" % (type(e).__name__, e)
         cubes.append(rec)
+    # grouped kernel on integer input = the ungrouped kernel on each group's sub-series, value for value
+    grouped = []
+    for c in P.get("grouped", []):
+        try:
+            x = np.array(c["x"], dtype=c["dtype"])
+            groups = np.array(c["groups"], dtype="int16")
+            ng = int(c["ng"])
+            nd = float(c["nodata"])
+            ci = np.array([[0, int((groups == k).sum())] for k in range(ng)], dtype="int16")
+            g = gammastd_grp(x, groups, ng, nd, ci)
+            r = np.zeros(len(x), dtype="int16")
+            for k in range(ng):
+                ix = groups == k
+                r[ix] = gammastd_yxt(x[ix].reshape(1, 1, -1), nd, 0, int(ix.sum()))[0, 0]
+            bad = np.where(r != g)[0]
+            grouped.append(dict(n=len(x), differ=int(len(bad)), first=None if not len(bad) else dict(step=int(bad[0]), group=int(groups[bad[0]]), x=float(x[bad[0]]),
+                                                                                                  grouped=int(g[bad[0]]), ungrouped=int(r[bad[0]]))))
+        except Exception as e:  # noqa
+            grouped.append(dict(error="%s: %s" % (type(e).__name__, e)))
     # the accessor with groups and a calibration window: every (pixel, group) against the definition evaluated on that
     # group's members inside the window
     acc = []
@@ -176,7 +195,7 @@ def main():
         except Exception as e:  # noqa
             rec["error"] = "%s: %s" % (type(e).__name__, e)
         acc.append(rec)
-    print("@@RESULT@@" + json.dumps(dict(cases=out, cubes=cubes, accessor=acc, k06=1 - 0.4, k14=1 + 0.4)))
+    print("@@RESULT@@" + json.dumps(dict(cases=out, cubes=cubes, accessor=acc, grouped=grouped, k06=1 - 0.4, k14=1 + 0.4)))
 
 
 main()
